@@ -18,7 +18,9 @@ CHECKS = [
              "AddChannelBind / Close calls and timer expiries at atomic-step granularity; for every step order accepted by orders_ok and EVERY "
              "schedule nothing stops or resets a nil timer and every published entry has its timer, no reachable state is a lock-up (some unfinished call is always unblocked) and every step of a runnable call decreases a measure, so all calls return (C18_no_lockup, C18_every_step_makes_progress, C18_all_calls_return); the step orders are extracted from the "
              "source each run and the model is compared with the real Manager/Allocation on forced schedules (threads parked inside the "
-             "lifecycle callbacks, closers blocked on the lock, timers fired by the virtual clock).",
+             "lifecycle callbacks, closers blocked on the lock, timers fired by the virtual clock). A concurrent stress campaign (UDP clients, "
+             "control connections on a stream listener that come and go, slow callbacks, Server.Close in the middle) runs under the Go race "
+             "detector in both tiers.",
      "note": "Partial by nature: data-race freedom is proved as the lockset condition for the fields declared in translator/lockskel/guards.txt "
              "only; locks are identified per type, not per object; channel/WaitGroup/atomic synchronisation, callbacks through function values "
              "and the Go memory model are outside the theorems (the forced-schedule and race-detector runs look there). Trusted: Coq kernel, "
